@@ -5,7 +5,7 @@
    therefore listed in a set that the write iterates over (lf_sids), and ContentP says that set's record decodes to the set
    with all its objects. *)
 From DV Require Import Model.ApiDispatch Model.FileReader Proofs.BaseP Proofs.PrimP Proofs.SegmentP Proofs.IflrP
-     Proofs.EflrP Proofs.BuilderP Proofs.WriteP Proofs.BytesP Proofs.StructP Proofs.FileP Proofs.RegP Proofs.VisP Proofs.KeepP Proofs.ContentP.
+     Proofs.EflrP Proofs.DataP Proofs.BuilderP Proofs.WriteP Proofs.BytesP Proofs.StructP Proofs.FileP Proofs.RegP Proofs.VisP Proofs.KeepP Proofs.ContentP.
 From Coq Require Import Lia ZifyBool.
 
 Definition full (keys : list (nat * oname)) (phys : reg) : Prop :=
@@ -508,4 +508,33 @@ Proof.
   destruct (negb (valid_dtype _)); [discriminate|]. destruct (1 <? zlen (cd_shape d)); [discriminate|].
   bind_inv Hgo. apply OK_inj_ in Hgo. injection Hgo as -> _.
   exists d0. split; [reflexivity|]. split; [lia|]. destruct (w_to w); [lia | exact I].
+Qed.
+
+(* ---------- the number of records of a logical file (what generate_logical_records announces; defect D27 repaired) ---------- *)
+Lemma fold_sets_length : forall sids st acc st' out,
+  fold_left sets_step sids (OK (st, acc)) = OK (st', out) -> length out = (length acc + length sids)%nat.
+Proof.
+  induction sids as [|sid sids IH]; intros st acc st' out H; [inv H; cbn [length]; lia|].
+  cbn [fold_left] in H. unfold sets_step at 2 in H. cbn [bind] in H.
+  destruct (enc_sset st sid) as [[s1 r]|e] eqn:E; cbn [bind] in H; [|rewrite fold_err in H by reflexivity; discriminate].
+  rewrite (IH _ _ _ _ H), app_length. cbn [length]. lia.
+Qed.
+
+Theorem lf_records_count st f frames st' recs :
+  lf_records st f frames = OK (st', recs) ->
+  length recs = (1 + length (lf_sids f) + length (l_nofmt f) + fold_right (fun fr n => length (snd fr) + n) 0 frames)%nat.
+Proof.
+  unfold lf_records. intros H. bind_inv H. rename a into fh.
+  change (fun (acc : res (bstate * list lrec)) (sid : nat) => _) with sets_step in H.
+  bind_inv H. destruct a as [st1 erecs]. rename H1 into Hfold.
+  bind_inv H. rename a into nf, H1 into Hnf. bind_inv H. rename a into fd, H1 into Hfd. inv H.
+  rewrite <- lf_sids_spec in Hfold. pose proof (fold_sets_length _ _ _ _ _ Hfold) as L1. cbn [length] in L1.
+  assert (L2 : length nf = length (l_nofmt f)).
+  { clear -Hnf. revert nf Hnf. induction (l_nofmt f) as [|[obj p] l IH]; intros nf H; [inv H; reflexivity|].
+    destruct obj; try discriminate. destruct (nth_error (b_items st') i); [|discriminate].
+    bind_inv H. bind_inv H. bind_inv H. inv H. cbn [length]. f_equal. apply IH. assumption. }
+  assert (L3 : length fd = fold_right (fun fr n => (length (snd fr) + n)%nat) 0%nat frames).
+  { clear -Hfd. revert fd Hfd. induction frames as [|[fr rows] l IH]; intros fd H; [inv H; reflexivity|].
+    bind_inv H. bind_inv H. inv H. rewrite app_length. cbn [fold_right snd]. rewrite (frame_recs_length _ _ _ _ H0), (IH _ H1). reflexivity. }
+  rewrite !app_length, L2. rewrite L1. rewrite L3. cbn [length]. set (x := fold_right _ _ _). lia.
 Qed.
